@@ -123,7 +123,7 @@ theorem interestHandle_gen_ti (R2 : ReaderSpecs2) (k : Nat) (st st' : InterestSt
               obtain ⟨⟨x, r1⟩, e1, e2⟩ := bind_ok_inv e
               simp at e2
               obtain ⟨rfl, rfl⟩ := e2
-              exact ⟨readNat_gen_ti R r r1 V p l 64 x h e1, rfl, rfl, fun _ => rfl⟩
+              exact ⟨readNat_gen_ti R r r1 V p l 64 x h (readNatural_ok e1), rfl, rfl, fun _ => rfl⟩
             · split at e
               · -- HopLimit
                 split at e
